@@ -45,7 +45,9 @@ type State struct {
 	heap map[string]Term
 	ep   *Epoch
 	W    Term
-	tok  Term
+	tok  Term // changes whenever memory that existed at function entry (or escaped fresh memory) is written
+	ftok Term // changes on every write
+	esc  Term // Bool: a pointer may have been stored into pre-existing memory (fresh objects may be reachable from old ones)
 }
 
 func (s *State) clone() *State {
@@ -53,7 +55,7 @@ func (s *State) clone() *State {
 	for k, v := range s.heap {
 		h[k] = v
 	}
-	return &State{cond: s.cond, heap: h, ep: s.ep, W: s.W, tok: s.tok}
+	return &State{cond: s.cond, heap: h, ep: s.ep, W: s.W, tok: s.tok, ftok: s.ftok, esc: s.esc}
 }
 
 type EntrySym struct {
@@ -88,12 +90,13 @@ type Gen struct {
 	lemmaKey      string
 	skipInvs      bool
 	muteObl       int
+	keyKind       map[string]CompKind
 	usedInvs      map[string]bool
 }
 
 func newGen(ctx *Ctx, fn *ssa.Function) *Gen {
 	g := &Gen{ctx: ctx, top: fn, declared: map[string]bool{}, notes: map[string]bool{}, kindCount: map[string]int{},
-		havocCallees: map[string]bool{}, usedContracts: map[string]bool{}, usedTrusted: map[string]bool{}, strLits: map[string]Term{}, usedPure: map[string]bool{}, declLine: map[string]int{}, usedInvs: map[string]bool{}}
+		havocCallees: map[string]bool{}, usedContracts: map[string]bool{}, usedTrusted: map[string]bool{}, strLits: map[string]Term{}, usedPure: map[string]bool{}, declLine: map[string]int{}, usedInvs: map[string]bool{}, keyKind: map[string]CompKind{}}
 	g.emit("(declare-fun strlen (Int) Int)")
 	g.emit("(assert (forall ((s Int)) (! (>= (strlen s) 0) :pattern ((strlen s)))))")
 	g.emit("(declare-fun band (Int Int) Int)")
@@ -249,8 +252,16 @@ func (e *Epoch) resolve(key, sort string) Term {
 	var t Term
 	if len(e.parents) == 0 {
 		n := fmt.Sprintf("H%d_%s", e.id, sanitize(key))
+		fresh := !e.g.declared[n]
 		e.g.declare(n, sort)
 		t = Term{S: n, Sort: sort}
+		if fresh && e.id == 1 && sort == arrSort(SInt) {
+			// heap well-formedness at entry: every stored pointer refers to memory allocated before the call
+			switch e.g.keyKind[key] {
+			case KPtr, KSlicePtr:
+				e.g.emit(fmt.Sprintf("(assert (forall ((a Int)) (! (and (<= 0 (select %s a)) (< (select %s a) W0)) :pattern ((select %s a)))))", n, n, n))
+			}
+		}
 		if e.base != nil {
 			// alloc-only epoch: below the watermark recorded at creation nothing changed
 			_ = e.base
@@ -277,16 +288,38 @@ func (g *Gen) heapSet(st *State, key string, t Term) {
 	st.heap[key] = g.name("H_"+key, t)
 }
 
-func (g *Gen) bumpTok(st *State) {
+func (g *Gen) bumpTok(st *State) { g.bumpTokAt(st, nil, true) }
+
+// bumpTokAt records a write at address target (nil: unknown). Writes into memory allocated during this
+// call do not disturb pure functions of pre-existing objects unless a pointer has escaped into old memory.
+func (g *Gen) bumpTokAt(st *State, target *Term, valPtr bool) {
 	n := g.sym("tok")
 	g.declare(n, SInt)
-	st.tok = Term{S: n, Sort: SInt}
+	nt := Term{S: n, Sort: SInt}
+	fn := g.sym("ftok")
+	g.declare(fn, SInt)
+	st.ftok = Term{S: fn, Sort: SInt}
+	if st.esc.S == "" {
+		st.esc = boolLit(false)
+	}
+	if target == nil {
+		st.tok = nt
+		if valPtr {
+			st.esc = boolLit(true)
+		}
+		return
+	}
+	fresh := tCmp(">=", *target, g.entryW)
+	st.tok = g.name("tok", tIte(tAnd(fresh, tNot(st.esc)), st.tok, nt))
+	if valPtr {
+		st.esc = g.name("esc", tOr(st.esc, tNot(fresh)))
+	}
 }
 
 func (g *Gen) havocAll(st *State) {
 	st.heap = map[string]Term{}
 	st.ep = g.newEpoch()
-	g.bumpTok(st)
+	g.bumpTokAt(st, nil, true)
 	w := g.sym("W")
 	g.declare(w, SInt)
 	nw := Term{S: w, Sort: SInt}
@@ -382,12 +415,18 @@ func (g *Gen) mergeStates(sts []*State) *State {
 	}
 	out.W = sts[len(sts)-1].W
 	out.tok = sts[len(sts)-1].tok
+	out.ftok = sts[len(sts)-1].ftok
+	out.esc = sts[len(sts)-1].esc
 	for i := len(sts) - 2; i >= 0; i-- {
 		out.W = tIte(sts[i].cond, sts[i].W, out.W)
 		out.tok = tIte(sts[i].cond, sts[i].tok, out.tok)
+		out.ftok = tIte(sts[i].cond, sts[i].ftok, out.ftok)
+		out.esc = tIte(sts[i].cond, sts[i].esc, out.esc)
 	}
 	out.W = g.name("W", out.W)
 	out.tok = g.name("tok", out.tok)
+	out.ftok = g.name("ftok", out.ftok)
+	out.esc = g.name("esc", out.esc)
 	return out
 }
 
@@ -431,6 +470,7 @@ func (g *Gen) loadLeaf(st *State, key string, addr Term, t types.Type) Val {
 	ly := layout(t)
 	v := Val{Typ: t, Comps: make([]Term, len(ly))}
 	for i, c := range ly {
+		g.keyKind[compKey(key, i)] = c.Kind
 		arr := g.heapGet(st, compKey(key, i), arrSort(c.Sort))
 		v.Comps[i] = g.typedLoad(tSelect(arr, addr, c.Sort), c)
 	}
@@ -441,6 +481,7 @@ func (g *Gen) loadLeaf(st *State, key string, addr Term, t types.Type) Val {
 func (g *Gen) storeLeaf(st *State, key string, addr Term, v Val) {
 	ly := layout(v.Typ)
 	for i, c := range ly {
+		g.keyKind[compKey(key, i)] = c.Kind
 		arr := g.heapGet(st, compKey(key, i), arrSort(c.Sort))
 		g.heapSet(st, compKey(key, i), tStore(arr, addr, v.Comps[i]))
 	}
@@ -588,6 +629,10 @@ func (g *Gen) allocZero(st *State, t types.Type) Term {
 
 func (g *Gen) oblige(st *State, kind string, pos token.Pos, src string, goal Term) {
 	if goal.isTrue() || g.muteObl > 0 {
+		return
+	}
+	if g.topC != nil && g.topC.Claims != nil && !g.topC.Claims[kind] {
+		g.notes["obligation kind not claimed for "+shortKey(g.topC.Key)+": "+kind] = true
 		return
 	}
 	if st.cond.isFalse() {
